@@ -175,7 +175,7 @@ func (e *Engine) strID(s string) uint64 {
 
 // flatten turns a value into a shape string and a list of terms such that equal (shape, terms) <=> equal deep values.
 func (e *Engine) flatten(v Value, shape *strings.Builder, out *[]*Term, depth int) {
-	if depth > 12 {
+	if depth > 40 {
 		panic(unsupported("hash argument too deep"))
 	}
 	switch x := v.(type) {
@@ -515,6 +515,20 @@ func (e *Engine) tryStub(name string, fn *ssa.Function, args []Value, g *Term, p
 			return args[0].(StructV).f[1], true
 		case "SameObject":
 			return e.sameObject(args[0], args[1]), true
+		case "FillDecoded":
+			// the value a JSON decoder leaves in *v: every pointer populated, scalars arbitrary, except that the nilpos-th
+			// pointer on the chain "target, its first pointer field, that one's first pointer field, ..." is nil (0: none)
+			iv, ok := args[0].(IfaceV)
+			np, ok2 := args[1].(*Term)
+			if !ok || len(iv.alts) != 1 || !ok2 || !np.IsConst() {
+				panic(unsupported("vrt.FillDecoded needs a concrete pointer type and a concrete position"))
+			}
+			pt, ok := iv.alts[0].typ.Underlying().(*types.Pointer)
+			if !ok {
+				panic(unsupported("vrt.FillDecoded: target is not a pointer"))
+			}
+			e.store(iv.alts[0].v, g, e.genDecoded(pt.Elem(), int(np.val), 0), pos)
+			return nil, true
 		case "Registered":
 			kind, _ := concreteStr(args[0])
 			key, ok := concreteStr(args[1])
@@ -1407,6 +1421,60 @@ func (e *Engine) hashTreeRootByWalker(recv Value, recvT types.Type, g *Term, pos
 		vals[i] = t
 	}
 	return e.hashApply(tag, vals), true
+}
+
+// genDecoded: see vrt.FillDecoded.
+func (e *Engine) genDecoded(t types.Type, k int, depth int) Value {
+	if depth > 14 {
+		return zero(t)
+	}
+	if t.String() == "time.Time" {
+		return zero(t)
+	}
+	switch u := t.Underlying().(type) {
+	case *types.Basic:
+		if u.Info()&types.IsString != 0 {
+			return Str("")
+		}
+		if u.Kind() == types.Bool {
+			return Fresh("dec", 0)
+		}
+		w, _ := intWidth(u)
+		if w < 0 {
+			return zero(t)
+		}
+		return Fresh("dec", w)
+	case *types.Pointer:
+		if k == 1 {
+			return RefV{}
+		}
+		if k > 1 {
+			k--
+		}
+		c := newCell(u.Elem(), e.genDecoded(u.Elem(), k, depth+1))
+		return RefV{[]RefAlt{{TS.True, c}}}
+	case *types.Struct:
+		f := make([]Value, u.NumFields())
+		used := false
+		for i := range f {
+			kk := 0
+			if _, isPtr := u.Field(i).Type().Underlying().(*types.Pointer); isPtr && !used {
+				kk, used = k, true
+			}
+			f[i] = e.genDecoded(u.Field(i).Type(), kk, depth+1)
+		}
+		return StructV{f}
+	case *types.Array:
+		if u.Len() > 256 {
+			return zero(t)
+		}
+		el := make([]Value, u.Len())
+		for i := range el {
+			el[i] = e.genDecoded(u.Elem(), 0, depth+1)
+		}
+		return ArrayV{el}
+	}
+	return zero(t)
 }
 
 // hexSprintf: fmt.Sprintf("%x" / "%#x", b) of a byte slice/array of concrete length and symbolic content is an opaque
